@@ -34,12 +34,12 @@ LAYOUT_CFGS = [
 
 
 def cases(tier):
-    out = fixfam.fix_cases(tier, rulesets_raw=("layout",), rulesets_yaml=("layout",), rulesets_fixtures=("layout",))
+    out = fixfam.fix_cases(tier, rulesets_raw=("layout",), rulesets_yaml=("layout",), rulesets_fixtures=("layout",), rulesets_fixture_gaps=("layout",))
     base = sorted(set(corpus.G(1)) | set(fixfam.GLUE)) if tier == "quick" else fixfam.raw_strings("quick")
     for cfg in LAYOUT_CFGS:
         for i in range(0, len(base), 16):
             out.append({"k": "strs", "d": "ansi", "rs": "layout", "ss": base[i : i + 16], "cfg": cfg})
-    return out
+    return out + fixfam.layout_product_cases(("layout",))
 
 
 def oracle(one, lnt, text, lf, fixed, add, res):
